@@ -89,6 +89,10 @@ def build_app(state):
     app.route("/u16", callback=text_stream("utf-16", False))
     app.route("/u16-broken", callback=text_stream("utf-16", True))
 
+    @app.route("/who")
+    def who():
+        return "user=%s theme=%s" % (app.request.get_cookie("session", "nobody"), app.request.cookies.get("theme", "-"))
+
     @app.route("/logout")
     def logout():
         app.response.delete_cookie("sid")
@@ -241,6 +245,10 @@ def env_of(kind, qs="", accept=None):
             env["HTTP_RANGE"] = "bytes=2-5"
         elif kind == "file-head":
             env["REQUEST_METHOD"] = "HEAD"
+    elif kind in CK_KINDS:
+        env["PATH_INFO"] = "/who"
+        if CK_KINDS[kind] is not None:
+            env["HTTP_COOKIE"] = CK_KINDS[kind]
     elif kind == "404":
         env["PATH_INFO"] = "/nope"
     elif kind == "405":
@@ -277,6 +285,9 @@ def env_of(kind, qs="", accept=None):
     return env
 
 
+# requests whose handler reads the cookies (triple/ family, since seed C09-k); 'ck-bad' carries a cookie name http.cookies refuses
+CK_KINDS = {"ck-alice": "session=alice", "ck-bob": "session=bob; theme=dark", "ck-bad": "session=mallory; a/b=1", "ck-none": None,
+            "ck-quoted": 'session="a\\073b"; theme=x'}
 KINDS = ["ok", "404", "405", "badpath", "crash", "raise", "badchunk", "oversize", "streamfail", "streamreset", "body", "body2", "body6", "chunkbody",
          "vh-blog", "vh-shop", "vh-none", "vh-direct", "logout", "admin-logout", "jp", "jp-broken", "u16", "u16-broken"]
 
@@ -320,6 +331,37 @@ def make_pair(k1, k2, json2):
         cover(first[0][0][0][:3])
         return None
     return q
+
+
+def make_triple(k1, k2, k3):
+    """histories of three requests: the first with symbolic data, the second and third concrete (often the same request
+    twice): the third response equals the one of a fresh application"""
+    def q(qs: str, hv: str, si: int, ci: int, json1: bool):
+        assume(len(qs) <= 1 and len(hv) <= 1)
+        for ch in qs + hv:
+            o = ord(ch)
+            assume(32 < o < 127 and o != 37)
+        assume(0 <= si < len(STATUS) and 0 <= ci < len(COOKIES))
+        ref = serve(build_app({}), env_of(k3, "z=9"))
+        state = {}
+        app = build_app(state)
+        state["write"] = (STATUS[si], hv, COOKIES[ci])
+        first = serve(app, env_of(k1, qs, "application/json" if json1 else None))
+        state.pop("write")
+        serve(app, env_of(k2, "y=8"))
+        third = serve(app, env_of(k3, "z=9"))
+        if third != ref:
+            return "history [%s(q=%r, wrote %r), %s, %s]: third response %r, on a fresh application %r" % (
+                k1, qs, (STATUS[si], hv, COOKIES[ci]), k2, k3, third, ref)
+        cover(first[0][0][0][:3])
+        return None
+    return q
+
+
+TRIPLES = [("ck-alice", "ck-bad", "ck-bad"), ("ck-alice", "ck-bob", "ck-alice"), ("ck-bad", "ck-alice", "ck-bad"),
+           ("ck-bob", "ck-none", "ck-none"), ("ck-quoted", "ck-bad", "ck-quoted"), ("ok", "crash", "crash"), ("404", "404", "ok"),
+           ("badpath", "ok", "badpath"), ("body", "streamfail", "body"), ("logout", "ck-alice", "logout"),
+           ("ck-alice", "badpath", "ck-none"), ("raise", "raise", "ck-bob")]
 
 
 # ---------------------------------------------------------------- retention (inductive form)
@@ -387,6 +429,12 @@ def queries(tier):
                      "request kind %r served 3 times on one application; query text and written header value: every printable "
                      "ASCII string of <= 1 character, status written from %r, Accept json or not" % (k, STATUS),
                      timeout=150 if not T else 400, per_path_timeout=40, expect_cover=["ok"], family="retention"))
+    for k1, k2, k3 in (TRIPLES if T else TRIPLES[:8]):
+        out.append(Q("triple/%s/%s/%s" % (k1, k2, k3), make_triple(k1, k2, k3),
+                     "history [%s, %s, %s] on one application: first request with symbolic query text and written header value (<= 1 "
+                     "printable ASCII character each), status written from %r, cookie from %r, Accept json or not; second and third "
+                     "request concrete; the third response equals the one of a fresh application" % (k1, k2, k3, STATUS, COOKIES),
+                     timeout=150 if not T else 400, per_path_timeout=40, family="triple"))
     firsts = KINDS
     seconds = ["ok", "404", "badpath", "crash", "body", "body2", "badchunk", "oversize", "streamfail", "vh-blog", "vh-none", "logout", "jp", "u16"] if not T else KINDS
     for k1 in firsts:
